@@ -73,6 +73,28 @@ Proof.
   rewrite !combine_fst_snd, !incidences_fst, !incidences_snd, !concat_zlen. repeat split; reflexivity.
 Qed.
 
+(* the guard of _generate_face_corners: corners are (re)generated when there are none or their number is not the number
+   of face-vertex incidences *)
+Lemma fc_regen_spec nc nf : fc_regen nc nf = true <-> (nc = 0 \/ nc <> nf).
+Proof. unfold fc_regen. rewrite orb_true_iff, negb_true_iff, Z.eqb_eq, Z.eqb_neq. tauto. Qed.
+
+(* stale face corners (faces appended to / removed from a re-wrapped mesh without clearing them) are replaced *)
+Theorem face_corners_regenerated c r r' : prepare c r = Ok r' ->
+  (zlen (fc_elem r) = 0 \/ zlen (fc_elem r) <> sum_len (faces r')) ->
+  combine (fc_elem r') (fc_adj r') = incidences (faces r') /\ zlen (fc_elem r') = sum_len (faces r').
+Proof.
+  intros H Hn. rewrite prepare_unfold in H. apply gcf_fields in H.
+  destruct H as (_ & _ & _ & Hfa & Hfe & Hfd & _).
+  destruct (stage2_corner_fields c r) as (S1 & _).
+  unfold stage5 in *. set (X := prepare_edges (stage2 c r)) in *.
+  rewrite gcc_fc_elem in Hfe. rewrite gcc_fc_adj in Hfd. rewrite gcc_faces, gfc_faces in Hfa.
+  assert (X1 : fc_elem X = fc_elem r) by (unfold X; now rewrite pe_fc_elem, S1).
+  rewrite Hfe, Hfd. unfold generate_face_corners. rewrite X1, <- Hfa.
+  replace (fc_regen (zlen (fc_elem r)) (sum_len (faces r'))) with true by (symmetry; now apply fc_regen_spec).
+  cbn [fc_elem fc_adj]. rewrite (records_incidences fc_record (faces r') fc_record_spec), combine_fst_snd.
+  split; [reflexivity|]. now rewrite incidences_fst, concat_zlen.
+Qed.
+
 (* ------------------------------------------------------------ class selection *)
 Definition top_dim (r : raw) : Z :=
   if nonempty (cells r) then 3 else if nonempty (faces r) then 2 else if nonempty (edges r) then 1 else 0.
